@@ -24,7 +24,9 @@ PROPS = {
         "lean_modules": ["Props.C20b"],
         "groups": [{"name": "render", "quick": 3000, "thorough": 80000}, {"name": "mediaL", "quick": 600, "thorough": 20000, "workers": 12},
                    # numbers typed in the real UI (also while a media hook is running): what the hook is started with
-                   {"name": "C07", "quick": 160, "thorough": 4000, "workers": 16}],
+                   {"name": "C07", "quick": 160, "thorough": 4000, "workers": 16},
+                   # whole items (the same text under several media types in one process): the numbers in the item text
+                   {"name": "present", "quick": 400, "thorough": 10000, "workers": 12}],
         "rule": "documents from grammars of HTML (inline styles, links, media, blockquotes, lists, headings, pre, hr, unknown tags, character-reference and raw control-character injections), Markdown, gemtext and plain text with URLs x sequences of 1..4 widths (-3..250); "
                 "every link / image / frame gets a unique label text and target from the generator; predicates on the implementation's output: the superscript number printed after a label opens (links[k-1]) that label's own target, and the numbers 1..N are all shown; non-trivial = the document has links; distinct by op content; "
                 "mediaL group: posts and actors with body links and attachment / icon / image lists, histories of SelectLink(k) for k in -1..6 (and Media, ProfilePic, Banner) on the real items, targets compared with the Link model",
@@ -108,7 +110,9 @@ PROPS = {
     },
     "C04": {
         "lean_modules": ["Props.Facts04", "Props.Facts04b"],
-        "groups": [{"name": "C04", "quick": 1200, "thorough": 30000, "workers": 8}],
+        "groups": [{"name": "C04", "quick": 1200, "thorough": 30000, "workers": 8},
+                   # redirect worlds (non-https hops, relative and cross-host Locations): what goes on the wire there
+                   {"name": "C03", "quick": 400, "thorough": 10000, "workers": 8}],
         "rule": "fetches of URLs with hostile paths and queries (raw and encoded CR/LF, spaces, %00, fragments), userinfo, upper-case scheme, non-https schemes, scheme-less references, redirects to plaintext and to CR/LF-carrying Locations, a plaintext canary listener; webfinger lookups with hostile account and domain parts (CR/LF, spaces, '#', '?', userinfo, unresolvable names); "
                 "compared: result and the raw bytes of every connection; non-trivial = at least one connection reached the simulator; distinct by op content",
         "trusted": ["crypto/tls, net, DNS (a TLS dial succeeds only for a syntactically valid host name or IP literal)",
@@ -120,6 +124,8 @@ PROPS = {
     "C05": {
         "lean_modules": ["Props.Facts04"],
         "groups": [{"name": "C05", "quick": 160, "thorough": 6000, "workers": 16, "config": "[network]\ntimeout_seconds = 1\n"},
+                   # whole items over worlds with unreachable and failing secondary fetches (replies, authors): an error item, never a crash
+                   {"name": "C07", "quick": 96, "thorough": 2000, "workers": 16},
                    {"name": "C05x", "quick": 0, "thorough": 400, "workers": 1, "config": "[network]\ntimeout_seconds = 1\n"}],
         "replay_config": "[network]\ntimeout_seconds = 1\n",
         "level": "fault_enumeration",
@@ -190,7 +196,10 @@ PROPS = {
     "C19": {
         "lean_modules": ["Props.Facts19", "Props.Facts19b"],
         "groups": [{"name": "C19", "quick": 3000, "thorough": 60000},
-                   {"name": "C19x", "quick": 4000, "thorough": 16777216, "workers": 16}],
+                   {"name": "C19x", "quick": 4000, "thorough": 16777216, "workers": 16},
+                   # processes started with the smallest accepted sizes, then used: fetches under cache_size = 1 and 2
+                   {"name": "C03", "quick": 120, "thorough": 4000, "workers": 4, "config": "[network]\ncache_size = 1\n"},
+                   {"name": "C03", "quick": 120, "thorough": 4000, "workers": 4, "config": "[network]\ncache_size = 2\npreload_amount = 0\ntimeout_seconds = 0\n"}],
         "rule": "hexToAnsi on valid, near-valid (one bad digit, signs, underscores, wrong length, non-ASCII digits) and random strings; configuration files generated value-first (colours, preload_amount/timeout_seconds/cache_size from {-1000..1000}, hooks of 0..3 arguments, unknown keys/tables, syntax errors, missing file) "
                 "then serialised to TOML and loaded by the real parse+postprocess; C19x walks the 16^6 colour space (a stride sample in quick, all of it in thorough); non-trivial = colour accepted / configuration not rejected by TOML itself; distinct by op content",
         "trusted": ["BurntSushi/toml decoding (the model starts from the decoded values; TOML-level rejections are the generator's ground truth)",
@@ -221,7 +230,9 @@ PROPS = {
     "C16": {
         "lean_modules": ["Props.C16b", "Props.Gen16", "Props.GenT16"],
         "groups": [{"name": "C16", "quick": 6000, "thorough": 200000}, {"name": "C07", "quick": 160, "thorough": 4000, "workers": 16},
-                   {"name": "C16x", "quick": 0, "thorough": 7, "workers": 1}],
+                   {"name": "C16x", "quick": 0, "thorough": 7, "workers": 1},
+                   # concurrent keys, loads and resizes: every frame as tall as the state says when it is drawn
+                   {"name": "C08", "quick": 24, "thorough": 600, "workers": 12}],
         "rule": "prefix/centered/suffix of 0..8 styled lines each x heights 1..16; non-trivial = height exceeds the centred text (buffers are computed); distinct by op content",
         "trusted": [LIBS["regexp"]],
         "assumptions": ["frames are produced only by ui.State.view (generated fact)", "terminal height >= 2 for the status line clause"],
